@@ -9,8 +9,10 @@ PROP = {
     "generated": ["Mps.HandlerSrc.gen_handler_source_0", "Mps.HandlerSrc.gen_handler_source_1", "Mps.HandlerSrc.gen_handler_source_2", "Mps.HandlerSrc.gen_handler_source_3", "Mps.HandlerSrc.gen_handler_source_4", "Mps.HandlerSrc.gen_handler_source_5", "Mps.C05.gen_decode_calls", "Mps.C05.gen_exponent_guards", "Mps.C05.gen_zk_guards", "Mps.C05.gen_round_guards"],
     "suites": [{"name": "malform", "quick": 20, "thorough": 100}, {"name": "codec", "quick": 1, "thorough": 4},
                # the zk verifiers on perturbed / forged / out-of-range proofs (shared with C10): here only `panic` is the property
-               {"name": "zk", "quick": 90, "thorough": 90}],
-    "propfields": {"malform": ["ok"], "codec": ["ok", "outcome"], "zk": ["panic"]},
+               {"name": "zk", "quick": 90, "thorough": 90},
+               # deviations that need the deviating party's own state (a chain-key contribution of the wrong length, ...)
+               {"name": "sess-deviate", "quick": 8, "thorough": 200, "shards": 8}],
+    "propfields": {"malform": ["ok"], "codec": ["ok", "outcome"], "zk": ["panic"], "sess-deviate": ["ok"]},
     "level": "proof",
     "level_text": "Proof (partial for the runtime part): for EVERY script, EVERY history of calls and EVERY message - any header, any content, "
                   "decodable or not - an Accept of the handler model (transcription of MultiHandler) has exactly one of three outcomes: ignored "
